@@ -79,7 +79,7 @@ def extensionsField (owner : String) (j : JV) : List (String × JV) :=
     `x-…` (extensions) nor `__origin__`; every entry is decoded into a fresh non-nil element, so a `null`
     path item is an empty path item (a `null` response is an empty wrapper: `isEmpty()`) -/
 def maplikeEntries (name : String) (j : JV) : List (String × JV) :=
-  ((extensionsOf name j).filter (fun kv => !kv.1.startsWith "x-")).map
+  ((extensionsOf name j).filter (fun kv => !kv.1.startsWith "x-" && kv.1 != "__origin__")).map
     (fun kv => if kv.2.isNull && name != "Responses" then (kv.1, JV.obj []) else kv)
 
 /-! ### drill-down -/
